@@ -84,7 +84,7 @@ type Specs struct {
 var funcHdrRe = regexp.MustCompile(`^func\s+(.+?)\s*\(([^()]*)\)\s*(?:\(([^()]*)\))?\s*$`)
 var labelRe = regexp.MustCompile(`^([A-Za-z_][A-Za-z0-9_]*)\s*:([^:].*)$`)
 
-var clauseKeywords = map[string]bool{"func": true, "property": true, "uses": true, "requires": true, "ensures": true, "modifies": true, "nopanic": true, "checked": true, "trusted": true, "strings": true, "loop": true, "invariant": true, "inline": true, "option": true, "assume": true,
+var clauseKeywords = map[string]bool{"func": true, "property": true, "uses": true, "requires": true, "ensures": true, "modifies": true, "nopanic": true, "checked": true, "trusted": true, "abstract": true, "strings": true, "loop": true, "invariant": true, "inline": true, "option": true, "assume": true,
 	"module": true, "package": true, "pure": true, "ghost": true, "define": true, "axiom": true, "lemma": true, "const": true, "import": true}
 
 func splitList(s string) []string {
@@ -242,7 +242,7 @@ func (s *Specs) loadContractFile(path, pkgPath string) error {
 			cur.NoPanic = true
 		case "checked":
 			cur.Checked = true
-		case "trusted":
+		case "trusted", "abstract":
 			cur.Trusted = true
 		case "inline":
 			cur.Inline = true
